@@ -46,6 +46,10 @@ type c20Op struct {
 	SignerHow int  // RSError / RSNoCerts / RSKeySpecError
 	LateHow   int  // 0 signing time before notBefore, 1 after notAfter
 	TSAHow    int  // 0 rejection, 1 connection error, 2 corrupted signature, 3 stub timestamper error
+	// Retry: the caller's retry loop - the request keeps the Signer object and
+	// the signing time of the preceding signing attempt (if that was for the
+	// same request) but carries another attribute value, agent and expiry
+	Retry bool
 }
 
 type c20Scenario struct {
@@ -86,6 +90,7 @@ func genC20(t *Tape) *c20Scenario {
 		op.SignerHow = 1 + t.Choose(3)
 		op.LateHow = t.Choose(2)
 		op.TSAHow = t.Choose(4)
+		op.Retry = t.Bool(25)
 		if op.Kind == EOSignFailSigner {
 			op.Remote = true
 		}
@@ -513,6 +518,35 @@ func (sc *c20Scenario) exec(obs *c20Obs, st *Stats) {
 	failedSince := "" // description of the failed sign(s) since the last success
 	var lastObs [2]string
 	var lastObsValid [2]bool
+	// the preceding signing attempt (for retries) and every envelope a
+	// successful Sign handed out (the caller keeps the slices it was given)
+	var prevSR *signature.SignRequest
+	prevReq := -1
+	type handedOut struct {
+		op    int
+		bytes []byte
+		want  string
+		sigs  string
+		name  string
+	}
+	var kept []handedOut
+	recheckKept := func(when string) {
+		for _, k := range kept {
+			ante("C20.M3")
+			full := ""
+			if fresh, perr := signature.ParseEnvelope(mt, k.bytes); perr != nil {
+				full = "unparsable(" + errKind(perr) + ")"
+			} else if fc, verr := fresh.Verify(); verr != nil {
+				full = "error(" + errKind(verr) + ")"
+			} else {
+				got, sigs := canonContent(fc)
+				full = got + "|" + sigs
+			}
+			if full != k.want+"|"+k.sigs {
+				fail("C20.M3", "returned_bytes_changed_later", fmt.Sprintf("%s: the bytes the successful Sign of op %d (%s) returned no longer say what they said when they were returned:\n  then: %s\n  now:  %s", when, k.op, k.name, shortContent(k.want), shortContent(full)))
+			}
+		}
+	}
 	// ---------- history ----------
 	for oi, op := range sc.Ops {
 		r := reqs[op.Req]
@@ -670,10 +704,32 @@ func (sc *c20Scenario) exec(obs *c20Obs, st *Stats) {
 			var sr *signature.SignRequest
 			var ss *SimSigner
 			how := ""
+			if op.Retry && prevSR != nil && prevReq == op.Req && prevSR.Signer != nil && op.Kind != EOSignFailSigner && !(op.Kind == EOSignFailLate && op.Reenter) {
+				// the same request object family: same Signer object, same signing
+				// time, other attribute value / agent / expiry
+				r2 := *r
+				r2.Name = r.Name + "'"
+				r2.Attr.Value = r.Attr.Value.(string) + "-retry"
+				r2.Agent = r.Agent + "-retry"
+				r2.Expiry = !r.Expiry
+				r = &r2
+			}
 			sr, ss, err := buildReq(r, op.Remote, op.Kind == EOSignOK && op.WithTSA)
 			if err != nil {
 				obs.Harness = err.Error()
 				return
+			}
+			if strings.HasSuffix(r.Name, "'") {
+				sr.Signer, sr.SigningTime = prevSR.Signer, prevSR.SigningTime
+				ss, _ = sr.Signer.(*SimSigner)
+				if ss != nil {
+					ss.Mode, ss.OnSign = 0, nil
+				}
+				sr.Expiry = time.Time{}
+				if r.Expiry {
+					sr.Expiry = sr.SigningTime.Add(48 * time.Hour)
+				}
+				st.Probes["c20_retry_with_same_signer_and_time"]++
 			}
 			switch op.Kind {
 			case EOSignOK:
@@ -790,6 +846,7 @@ func (sc *c20Scenario) exec(obs *c20Obs, st *Stats) {
 				}
 				b, serr = env.Sign(sr)
 			}()
+			prevSR, prevReq = sr, op.Req
 			if op.Kind == EOSignFailLate && op.Reenter {
 				how += "+reentrant_sign_" + nestedName
 			}
@@ -831,9 +888,14 @@ func (sc *c20Scenario) exec(obs *c20Obs, st *Stats) {
 					}
 				}
 				states = []c20State{{Kind: "holds", Content: want, Sigs: sigs, Label: "holds(" + r.Name + ")"}}
+				recheckKept(fmt.Sprintf("after the successful Sign of op %d", oi))
+				if verr == nil {
+					kept = append(kept, handedOut{op: oi, bytes: b, want: want, sigs: sigs, name: r.Name})
+				}
 				continue
 			}
 			// failed signing attempt
+			recheckKept(fmt.Sprintf("after the failed Sign of op %d", oi))
 			if b != nil {
 				fail("C20.M4", "bytes_with_error/"+how, fmt.Sprintf("op %d: Sign returned an error together with bytes", oi))
 			}
